@@ -603,3 +603,103 @@ Theorem C06_fit_row_permutation_example :
     fit_from RO solve f alpha tol (Some [1; 1; 2]) (Some [1; 0; 0]) [1; 2; 1; 0; 1; 1] [3; 0; 1] max_iter start
     = fit_from RO solve f alpha tol (Some [1; 2; 1]) (Some [0; 0; 1]) [1; 0; 1; 1; 1; 2] [0; 1; 3] max_iter start.
 Proof. exact fit_row_permutation_example. Qed.
+
+(** ** Tie A, fourth round: the helpers and accessors of [impl GLM] are the source (regenerated from src/predict/glms/glm.rs on
+    every run by tools/tiea/glm_loops.py; the element-wise family tables are regenerated by tools/tiea/glm_families.py).  The
+    source accumulates in place ([dbeta[i_p] -= ..] inside the [i_n] loop, [weighted_x[i_n * p + i_p] *= ..], [ddbeta[i * p +
+    i] += alpha]); the models are written per cell: every index is in bounds and every cell sees the same operations in the
+    same order.  Routines of other files are parameters of the generated text, instantiated by their models ([vbin] for the
+    element-wise kernels, [is_matrix], [is_design], [matmul], [dot], [diag]; [inv] = [invert_matrix] stays a parameter of the
+    model as well).  A method returning [Result<_, &str>] returns an option VALUE inside the option of the panics. *)
+From Compute Require Import Base.RsExpr Base.RsExprFour Generated.glm_loops Proofs.TieA_glm_loops.
+(** [has_converged]: the source tests [loss_previous.is_infinite()], the model [x == x && x - x != x - x] (and "no previous
+    loss" = [None] for the initial [f64::INFINITY]); stated for the values on which the two tests agree *)
+Theorem C06_model_is_source_has_converged :
+  forall (T : Type) (O : Ops T) (loss lp tol : T), rs_is_infinite O lp = is_inf O lp ->
+    src_has_converged O loss lp tol = has_converged O loss (Some lp) tol.
+Proof. exact @tiea_has_converged. Qed.
+Theorem C06_model_is_source_has_converged_first :
+  forall (T : Type) (O : Ops T) (loss tol : T), eqb O (rs_f64_infinity O) (rs_f64_infinity O) = true ->
+    src_has_converged O loss (rs_f64_infinity O) tol = has_converged O loss None tol.
+Proof. exact @tiea_has_converged_first. Qed.
+(** the gradient: the allocation of [dbeta] passes the capacity check ([x] itself is below it) *)
+Theorem C06_model_is_source_compute_dbeta :
+  forall (T : Type) (O : Ops T) (x y mu dmu var w : list T), (Z.of_nat (length x) <= 1152921504606846975)%Z ->
+    src_compute_dbeta O (is_matrix_z (T := T)) (vbin (mul O)) (vbin (sub O)) (vbin (div O)) x y mu dmu var w
+    = compute_dbeta O x y mu dmu var w.
+Proof. exact @tiea_compute_dbeta. Qed.
+Theorem C06_model_is_source_compute_ddbeta :
+  forall (T : Type) (O : Ops T) (x dmu var w : list T),
+    src_compute_ddbeta O (is_matrix_z (T := T)) (vbin (mul O)) (vbin (div O)) (matmul_z O) x dmu var w = compute_ddbeta O x dmu var w.
+Proof. exact @tiea_compute_ddbeta. Qed.
+(** the ridge penalties, as called by [fit] ([coef] and [dbeta] of length p, [ddbeta] p x p) *)
+Theorem C06_model_is_source_apply_dbeta_penalty :
+  forall (T : Type) (O : Ops T) (alpha : T) (dbeta coef : list T), length coef = length dbeta ->
+    src_apply_dbeta_penalty O alpha dbeta coef = Some (apply_dbeta_penalty O alpha dbeta coef).
+Proof. exact @tiea_apply_dbeta_penalty. Qed.
+Theorem C06_model_is_source_apply_ddbeta_penalty :
+  forall (T : Type) (O : Ops T) (alpha : T) (ddbeta : list T) (p : nat), length ddbeta = (p * p)%nat ->
+    src_apply_ddbeta_penalty O alpha ddbeta (Z.of_nat p) = Some (apply_ddbeta_penalty O alpha ddbeta p).
+Proof. exact @tiea_apply_ddbeta_penalty. Qed.
+(** the deviance of a fit with prior weights: unit weights take the family's deviance of the whole sample; otherwise
+    [weights[i]], [&y[i..i + 1]], [&mu[i..i + 1]] panic exactly when the model says [None] *)
+Theorem C06_model_is_source_weighted_deviance :
+  forall (T : Type) (O : Ops T) (f : family) (y mu w : list T),
+    src_weighted_deviance O (deviance O f) y mu w = weighted_deviance O f y mu w.
+Proof. exact @tiea_weighted_deviance. Qed.
+Theorem C06_model_is_source_weighted_penalized_deviance :
+  forall (T : Type) (O : Ops T) (f : family) (alpha : T) (y mu w coef : list T),
+    src_weighted_penalized_deviance O (dot O) (deviance O f) alpha y mu w coef = weighted_penalized_deviance O f y mu w alpha coef.
+Proof. exact @tiea_weighted_penalized_deviance. Qed.
+(** accessors of a fitted model: the Option-valued fields hold what [fit] stored; before [fit] they return [Err] *)
+Theorem C06_model_is_source_aic :
+  forall (T : Type) (O : Ops T) (ft : @fitted T),
+    src_aic O (Some (f_dev ft)) (Some (Z.of_nat (f_p ft))) = Some (Some (aic O ft)).
+Proof. exact @tiea_aic. Qed.
+Theorem C06_model_is_source_aic_unfitted :
+  forall (T : Type) (O : Ops T) (p : option Z), src_aic O (@None T) p = Some None.
+Proof. exact @tiea_aic_unfitted. Qed.
+Theorem C06_model_is_source_bic :
+  forall (T : Type) (O : Ops T) (ft : @fitted T),
+    src_bic O (Some (f_dev ft)) (Some (f_n ft)) (Some (Z.of_nat (f_p ft))) = Some (Some (bic O ft)).
+Proof. exact @tiea_bic. Qed.
+(** [(n - p) as f64] on [usize]: the release build wraps, the model follows the debug build (panic): equal for [p <= n] *)
+Theorem C06_model_is_source_dispersion :
+  forall (T : Type) (O : Ops T) (f : family) (ft : @fitted T), (Z.of_nat (f_p ft) <= f_n ft)%Z \/ has_dispersion f = false ->
+    src_dispersion O (has_dispersion f) (Some (f_dev ft)) (Some (f_n ft)) (Some (Z.of_nat (f_p ft))) = option_map Some (dispersion O f ft).
+Proof. exact @tiea_dispersion. Qed.
+Theorem C06_model_is_source_coef_covariance_matrix :
+  forall (T : Type) (O : Ops T) (inv : list T -> option (list T)) (f : family) (ft : @fitted T),
+    (Z.of_nat (f_p ft) <= f_n ft)%Z \/ has_dispersion f = false ->
+    src_coef_covariance_matrix O (fun s v => map (mul O s) v) inv (has_dispersion f) (Some (f_dev ft)) (Some (f_info ft)) (Some (f_n ft)) (Some (Z.of_nat (f_p ft)))
+    = option_map Some (coef_covariance_matrix O inv f ft).
+Proof. exact @tiea_coef_covariance_matrix. Qed.
+Theorem C06_model_is_source_coef_standard_error :
+  forall (T : Type) (O : Ops T) (inv : list T -> option (list T)) (f : family) (ft : @fitted T),
+    (Z.of_nat (f_p ft) <= f_n ft)%Z \/ has_dispersion f = false ->
+    src_coef_standard_error O (fun s v => map (mul O s) v) (map (sqrt O)) (diag O) inv (has_dispersion f) (Some (f_dev ft)) (Some (f_info ft)) (Some (f_n ft)) (Some (Z.of_nat (f_p ft)))
+    = option_map Some (coef_standard_error O inv f ft).
+Proof. exact @tiea_coef_standard_error. Qed.
+Theorem C06_model_is_source_predict :
+  forall (T : Type) (O : Ops T) (f : family) (off : option (list T)) (ft : @fitted T) (x : list T),
+    src_predict O (is_matrix_z (T := T)) (is_design_z O) (vbin (add O)) (matmul_z O) (inv_link O f) off (Some (f_coef ft)) (Some (Z.of_nat (f_p ft))) x
+    = option_map Some (predict O f off ft x).
+Proof. exact @tiea_predict. Qed.
+(** [score]: the family's deviance of the responses against the predictions *)
+Theorem C06_model_is_source_score :
+  forall (T : Type) (O : Ops T) (f : family) (off : option (list T)) (ft : @fitted T) (x y : list T),
+    src_score O (is_matrix_z (T := T)) (is_design_z O) (vbin (add O)) (matmul_z O) (deviance O f) (inv_link O f) off (Some (f_coef ft)) (Some (Z.of_nat (f_p ft))) x y
+    = let* mu := predict O f off ft x in deviance O f y mu.
+Proof. exact @tiea_score. Qed.
+(** on binary64 the two infinity tests are the same function of a double (Flocq: [x - x] is a zero for a finite [x]): the generated
+    [has_converged] IS the model's on the carrier the correspondence runs on, for every previous loss *)
+From Coq Require Floats.
+From Compute Require Import Proofs.TieA_glm_float.
+Theorem C06_model_is_source_has_converged_binary64 :
+  forall (tbl : libm_table) (loss lp tol : PrimFloat.float),
+    src_has_converged (FO tbl) loss lp tol = has_converged (FO tbl) loss (Some lp) tol.
+Proof. exact tiea_has_converged_binary64. Qed.
+Theorem C06_model_is_source_has_converged_first_binary64 :
+  forall (tbl : libm_table) (loss tol : PrimFloat.float),
+    src_has_converged (FO tbl) loss PrimFloat.infinity tol = has_converged (FO tbl) loss None tol.
+Proof. exact tiea_has_converged_first_binary64. Qed.
